@@ -37,6 +37,15 @@ pub fn total(bytes: &[u8]) -> Result<bool, String> {
             let _ = (s.len(), s.is_empty());
             let _ = s.as_fst().verify();
         }
+        // an existing reader handed these bytes through map_data
+        if let Ok(f) = Fst::new(other_fst_bytes()).unwrap().map_data(|_| bytes) {
+            let _ = (f.len(), f.is_empty(), f.fst_type(), f.size(), f.as_bytes().len());
+            let _ = f.verify();
+        }
+        if let Ok(m) = Map::new(other_fst_bytes()).unwrap().map_data(|_| bytes.to_vec()) {
+            let _ = (m.len(), m.is_empty());
+            let _ = m.as_fst().verify();
+        }
         opened
     });
     r.map_err(|p| format!("{} on {} bytes {}", p, bytes.len(), if bytes.len() <= 80 { hex(bytes) } else { format!("{}...", hex(&bytes[..80])) }))
@@ -254,7 +263,7 @@ pub fn forbid_unsafe() -> Result<String, String> {
 pub fn plan(tier: Tier) -> Plan {
     let mut p = Plan::new("C20", "exploration");
     let thorough = tier.thorough();
-    p.rule = "(a) boundary grid: total length 0..64 x version field {0,1,2,3,4,2^32,u64::MAX} x root address {0,1,15,16,len-22..len-16,len-1,len,len+1,2^31,2^63,u64::MAX-20,u64::MAX-16,u64::MAX} x key count {0,1,u64::MAX} x filler {00,ff,80,40,c1} x checksum {0, correct, inverted}; (b) every truncation (every prefix and every suffix) and every single-byte mutation (255 values) of every FST built from subsets of U_ab3 with <= 3 keys (thorough: <= 4) and of three fan-out FSTs; for each byte string, under catch_unwind with overflow checks on: Fst::new / Map::new / Set::new (slice and Vec) and, on whatever opens, len, is_empty, fst_type, size, as_bytes, to_vec, verify - any panic is a violation; (b2) files written by the independent reference encoder in versions 1, 2 and 3 (small sets, fan-outs 1..256 across the index threshold, final roots, wide node below a prefix; both node-form policies): each as is, with the header relabelled to each other version (checksum added/dropped/recomputed), every truncation, and single-byte mutants (11 xor masks per position) both plain and WITH THE CHECKSUM RECOMPUTED so that the code behind the checksum test is reached; (c) cargo rustc -p fst --lib --features levenshtein -- -F unsafe_code must compile (a lint, not model checking). non-trivial = byte strings that open".into();
+    p.rule = "(a) boundary grid: total length 0..64 x version field {0,1,2,3,4,2^32,u64::MAX} x root address {0,1,15,16,len-22..len-16,len-1,len,len+1,2^31,2^63,u64::MAX-20,u64::MAX-16,u64::MAX} x key count {0,1,u64::MAX} x filler {00,ff,80,40,c1} x checksum {0, correct, inverted}; (b) every truncation (every prefix and every suffix) and every single-byte mutation (255 values) of every FST built from subsets of U_ab3 with <= 3 keys (thorough: <= 4) and of three fan-out FSTs; for each byte string, under catch_unwind with overflow checks on: Fst::new / Map::new / Set::new (slice and Vec) / map_data of an existing reader to these bytes and, on whatever opens, len, is_empty, fst_type, size, as_bytes, to_vec, verify - any panic is a violation; (b2) files written by the independent reference encoder in versions 1, 2 and 3 (small sets, fan-outs 1..256 across the index threshold, final roots, wide node below a prefix; both node-form policies): each as is, with the header relabelled to each other version (checksum added/dropped/recomputed), every truncation, and single-byte mutants (11 xor masks per position) both plain and WITH THE CHECKSUM RECOMPUTED so that the code behind the checksum test is reached; (c) cargo rustc -p fst --lib --features levenshtein -- -F unsafe_code must compile (a lint, not model checking). non-trivial = byte strings that open".into();
     p.assumptions = vec![
         "operations after the gate (root, stream, get) on garbage may panic by the property's own wording and are not called".into(),
         "the 'no unsafe code' clause is decided by the compiler's forbid(unsafe_code) lint over the library crate with the levenshtein feature on".into(),
